@@ -405,7 +405,46 @@ func judgeAgainstRef(hr *rig.HTTPResult, refData any) *violation {
 	}
 	pr, pg := rig.Prune(refData, got)
 	if d := rig.FirstDiff(pr, pg, "data"); d != nil {
+		if d.Kind == "missing-key" && onlyHelperLeaves(d.Ref) {
+			// the object(s) missing hold nothing but id / __typename: what is left when exactly those keys were removed
+			// (an object that lost all its keys is pruned on both sides)
+			return &violation{"data-diff: missing-key(only-id/__typename-below)", d.String()}
+		}
 		return &violation{"data-diff: " + d.Kind, d.String()}
 	}
 	return nil
+}
+
+// onlyHelperLeaves reports whether v is made of objects / lists whose only leaves sit under the keys id and __typename.
+func onlyHelperLeaves(v any) bool {
+	switch x := v.(type) {
+	case map[string]any:
+		if len(x) == 0 {
+			return false
+		}
+		for k, e := range x {
+			switch e.(type) {
+			case map[string]any, []any:
+				if !onlyHelperLeaves(e) {
+					return false
+				}
+			default:
+				if k != "id" && k != "__typename" {
+					return false
+				}
+			}
+		}
+		return true
+	case []any:
+		if len(x) == 0 {
+			return false
+		}
+		for _, e := range x {
+			if e != nil && !onlyHelperLeaves(e) {
+				return false
+			}
+		}
+		return true
+	}
+	return false
 }
